@@ -197,6 +197,13 @@ namespace GeographicLib {
       tx = 1 / tx; ty = 1 / ty;
       return std::atan2(g * (ty - tx), 1 + tx * ty) / std::atan2(ty - tx, 1 + tx * ty);
     }
+    // PRT1: To() keeps the three kinds apart, From() lets kind 1 fall into the arm of kind 2
+    static double To(int kind, double v) {
+      switch (kind) { case 0: return v; case 1: return v * 2; case 2: return v * 3; default: return 0; }
+    }
+    static double From(int kind, double v) {
+      switch (kind) { case 0: return v; case 1: case 2: return v / 3; default: return 0; }
+    }
     // CP1: the northing clause is a copy of the easting clause with one name left behind
     static double Pad(double easting, double northing, double scale) {
       double w = 0;
